@@ -205,6 +205,165 @@ Proof.
     exists t, ee. split; [reflexivity|]. split; [exact P|]. split; [exact S|]. split; [exact C|]. split; [exact M|]. split; [exact X|exact L].
 Qed.
 
+(* ------------------------------------------------------------------ the secrets in force *)
+
+(* the premise of the wrong-kind theorems: no other purpose (a foreign key included) shares the key of
+   one of the server's three purposes *)
+Definition secrets_distinct (cfg : config) : Prop := forall k v, v <> KForeign -> k <> v -> cfg k <> cfg v.
+Definition cfg_default : config := dec_cfg 0 1 2 3.
+Definition cfg_shared : config := dec_cfg 0 0 0 3.       (* EMAIL_/REFRESH_JWT_SECRET defaulting to JWT_SECRET *)
+
+Lemma cfg_default_distinct : secrets_distinct cfg_default.
+Proof. intros k v Hv Hkv. destruct k, v; cbn; try congruence; discriminate. Qed.
+
+(* what the library check means under a configuration: made properly for SOME purpose whose secret is the verifier's *)
+Lemma lib_accepts_c_proper cfg now v t : lib_accepts_c cfg now v t = true <-> proper now (t_key t) t /\ cfg (t_key t) = cfg v.
+Proof.
+  unfold lib_accepts_c, proper. rewrite !andb_true_iff, !negb_true_iff, Z.eqb_eq. intuition.
+Qed.
+
+Lemma lib_accepts_c_distinct cfg now v t : secrets_distinct cfg -> v <> KForeign -> lib_accepts_c cfg now v t = lib_accepts now v t.
+Proof.
+  intros D Hv. unfold lib_accepts_c, lib_accepts.
+  replace (cfg (t_key t) =? cfg v) with (key_eqb (t_key t) v); [reflexivity|].
+  destruct (key_eqb (t_key t) v) eqn:E.
+  - apply key_eqb_eq in E. rewrite E. symmetry. apply Z.eqb_refl.
+  - symmetry. apply Z.eqb_neq. apply D; [exact Hv|]. intros C. apply key_eqb_eq in C. congruence.
+Qed.
+
+Lemma verify_access_c_distinct cfg now chk raw : secrets_distinct cfg -> verify_access_c cfg now chk raw = verify_access now chk raw.
+Proof. intros D. unfold verify_access_c, verify_access. destruct raw as [t|]; [|reflexivity]. rewrite (lib_accepts_c_distinct cfg now KAccess t D) by discriminate. reflexivity. Qed.
+
+Lemma verify_refresh_c_distinct cfg now raw : secrets_distinct cfg -> verify_refresh_c cfg now raw = verify_refresh now raw.
+Proof. intros D. unfold verify_refresh_c, verify_refresh. destruct raw as [t|]; [|reflexivity]. rewrite (lib_accepts_c_distinct cfg now KRefresh t D) by discriminate. reflexivity. Qed.
+
+Lemma verify_email_c_distinct cfg now ctx raw : secrets_distinct cfg -> verify_email_c cfg now ctx raw = verify_email now ctx raw.
+Proof. intros D. unfold verify_email_c, verify_email. destruct raw as [t|]; [|reflexivity]. rewrite (lib_accepts_c_distinct cfg now KEmail t D) by discriminate. reflexivity. Qed.
+
+Lemma login_required_c_distinct cfg now raw : secrets_distinct cfg -> login_required_c cfg now raw = login_required now raw.
+Proof. intros D. unfold login_required_c, login_required. rewrite (verify_access_c_distinct cfg now true raw D). reflexivity. Qed.
+
+(* with pairwise distinct secrets the configured server IS the model the theorems above are about *)
+Lemma distinct_config_is_model cfg : secrets_distinct cfg ->
+  (forall now chk raw, verify_access_c cfg now chk raw = verify_access now chk raw) /\
+  (forall now raw, verify_refresh_c cfg now raw = verify_refresh now raw) /\
+  (forall now ctx raw, verify_email_c cfg now ctx raw = verify_email now ctx raw) /\
+  (forall now raw, login_required_c cfg now raw = login_required now raw) /\
+  (forall now a r pcli, refresh_c cfg now a r pcli = refresh now a r pcli) /\
+  (forall now a b, get_token_info_c cfg now a b = get_token_info now a b) /\
+  (forall now caller pu etok ctx adm allow, email_use_c cfg now caller pu etok ctx adm allow = email_use now caller pu etok ctx adm allow).
+Proof.
+  intros D. repeat split; intros.
+  - apply verify_access_c_distinct; exact D.
+  - apply verify_refresh_c_distinct; exact D.
+  - apply verify_email_c_distinct; exact D.
+  - apply login_required_c_distinct; exact D.
+  - unfold refresh_c, refresh. rewrite (verify_access_c_distinct cfg now false a D), (verify_refresh_c_distinct cfg now r D). reflexivity.
+  - unfold get_token_info_c, get_token_info. rewrite (login_required_c_distinct cfg now a D), (verify_access_c_distinct cfg now true b D). reflexivity.
+  - unfold email_use_c, email_use. rewrite (login_required_c_distinct cfg now caller D), (verify_email_c_distinct cfg now ctx etok D). reflexivity.
+Qed.
+
+(* the wrong-kind theorems with their premise explicit *)
+Lemma access_wrong_key_c cfg now chk t : secrets_distinct cfg -> t_key t <> KAccess -> verify_access_c cfg now chk (Some t) = VInvalid.
+Proof. intros D H. rewrite (verify_access_c_distinct cfg now chk (Some t) D). apply access_wrong_key; exact H. Qed.
+Lemma refresh_wrong_key_c cfg now t : secrets_distinct cfg -> t_key t <> KRefresh -> verify_refresh_c cfg now (Some t) = VInvalid.
+Proof. intros D H. rewrite (verify_refresh_c_distinct cfg now (Some t) D). apply refresh_wrong_key; exact H. Qed.
+Lemma email_wrong_key_c cfg now ctx t : secrets_distinct cfg -> t_key t <> KEmail -> verify_email_c cfg now ctx (Some t) = VInvalid.
+Proof. intros D H. rewrite (verify_email_c_distinct cfg now ctx (Some t) D). apply email_wrong_key; exact H. Qed.
+
+(* without the premise: what an accepted access token is under ANY configuration *)
+Lemma access_sound_c cfg now t u e c m : 0 < now -> verify_access_c cfg now true (Some t) = VOk u e c m ->
+  proper now (t_key t) t /\ cfg (t_key t) = cfg KAccess /\ claim_str (t_sub t) = Some u /\ t_exp t = CNum e /\ now < e.
+Proof.
+  intros Hn H. unfold verify_access_c in H.
+  destruct (lib_accepts_c cfg now KAccess t) eqn:La; cbn [negb] in H; [|discriminate].
+  destruct (claim_str (t_cli t)) as [cli|]; [|discriminate].
+  destruct (claim_str (t_sub t)) as [sub|] eqn:Es; [|discriminate].
+  destruct (claim_int (t_exp t)) as [ex|] eqn:Ee; [|discriminate].
+  cbn [andb] in H. destruct (ex <? now) eqn:Elt; [discriminate|]. inversion H; subst.
+  apply lib_accepts_c_proper in La. destruct La as [P Hk]. split; [exact P|]. split; [exact Hk|]. split; [reflexivity|].
+  destruct P as (_ & _ & _ & _ & _ & Hl). apply (exp_future now (t_exp t) e Hn Hl Ee Elt).
+Qed.
+
+(* ... and the converse: a token made properly for a purpose that shares the access secret IS an access token *)
+Lemma shared_secret_accepted cfg now k t u n cli : proper now k t -> cfg k = cfg KAccess ->
+  t_sub t = CStr u -> t_exp t = CNum n -> now < n -> claim_str (t_cli t) = Some cli ->
+  verify_access_c cfg now true (Some t) = VOk u n cli 0.
+Proof.
+  intros P Hk Hs He Hn Hc. unfold verify_access_c.
+  assert (La : lib_accepts_c cfg now KAccess t = true).
+  { apply lib_accepts_c_proper. destruct P as (P1 & P2 & P3 & P4). subst k. split; [|exact Hk]. repeat split; tauto. }
+  rewrite La. cbn [negb]. rewrite Hc, Hs, He. cbn. replace (n <? now) with false by lia. reflexivity.
+Qed.
+
+(* a token carrying every claim any verifier looks at, signed for purpose k *)
+Definition wit (k : key) : token := mkTok HS256 k true (CStr 3) (CNum 2000) (CStr 1) (CStr TYP_REFRESH) (CStr 1) (CStr 1) false false.
+
+Definition wrong_kind_rejected (cfg : config) : Prop :=
+  (forall now chk t, t_key t <> KAccess -> verify_access_c cfg now chk (Some t) = VInvalid) /\
+  (forall now t, t_key t <> KRefresh -> verify_refresh_c cfg now (Some t) = VInvalid) /\
+  (forall now ctx t, t_key t <> KEmail -> verify_email_c cfg now ctx (Some t) = VInvalid).
+
+(* the premise is exactly what the wrong-kind clause needs: it holds for all tokens iff the secrets are distinct *)
+Lemma wrong_kind_iff_distinct cfg : wrong_kind_rejected cfg <-> secrets_distinct cfg.
+Proof.
+  split.
+  - intros (Ha & Hr & He) k v Hv Hkv Heq. destruct v; [| | |congruence].
+    + specialize (Ha 1000 true (wit k) Hkv). unfold verify_access_c, lib_accepts_c in Ha. cbn [wit t_key t_alg t_intact t_exp t_nbf_future t_iat_future t_cli t_sub] in Ha.
+      rewrite Heq, Z.eqb_refl in Ha. cbn in Ha. discriminate.
+    + specialize (Hr 1000 (wit k) Hkv). unfold verify_refresh_c, lib_accepts_c in Hr. cbn [wit t_key t_alg t_intact t_exp t_nbf_future t_iat_future t_cli t_sub t_typ] in Hr.
+      rewrite Heq, Z.eqb_refl in Hr. cbn in Hr. discriminate.
+    + specialize (He 1000 1 (wit k) Hkv). unfold verify_email_c, lib_accepts_c in He. cbn [wit t_key t_alg t_intact t_exp t_nbf_future t_iat_future t_cli t_sub t_eml t_ctx] in He.
+      rewrite Heq, Z.eqb_refl in He. cbn in He. discriminate.
+  - intros D. split; [|split]; intros.
+    + apply access_wrong_key_c; assumption.
+    + apply refresh_wrong_key_c; assumption.
+    + apply email_wrong_key_c; assumption.
+Qed.
+
+(* the refutation: drop the premise (refresh and e-mail secrets defaulting to the access secret) and a genuine
+   refresh token — accepted by the refresh verifier — authenticates a request as its subject *)
+Lemma distinct_secrets_needed :
+  exists cfg now t u e c, t_key t = KRefresh /\ verify_refresh_c cfg now (Some t) = VOk u e c 0 /\
+    verify_access_c cfg now true (Some t) = VOk u e c 0 /\ login_required_c cfg now (Some t) = u /\ u <> GUEST /\
+    get_token_info_c cfg now (Some t) (Some t) = Some u.
+Proof.
+  exists cfg_shared, 1000, (issue 1000 KRefresh 3 1 0 0), 3, (1000 + REFRESH_TS), 1.
+  vm_compute. repeat split; try reflexivity. discriminate.
+Qed.
+
+(* every cross-use of what the server itself issues, under any configuration with distinct secrets *)
+Lemma issue_key now k u cli eml ctx : t_key (issue now k u cli eml ctx) = k.
+Proof. destruct k; reflexivity. Qed.
+
+Lemma issued_cross_use cfg now k u cli eml ctx vctx : secrets_distinct cfg ->
+  (verify_access_c cfg now true (Some (issue now k u cli eml ctx)) <> VInvalid <-> k = KAccess) /\
+  (verify_refresh_c cfg now (Some (issue now k u cli eml ctx)) <> VInvalid <-> k = KRefresh) /\
+  (verify_email_c cfg now vctx (Some (issue now k u cli eml ctx)) <> VInvalid <-> k = KEmail /\ ctx = vctx).
+Proof.
+  intros D.
+  rewrite (verify_access_c_distinct cfg now true _ D), (verify_refresh_c_distinct cfg now _ D), (verify_email_c_distinct cfg now vctx _ D).
+  assert (E1 : (now <? now + ACCESS_TS) = true) by (unfold ACCESS_TS; lia).
+  assert (E2 : (now <? now + REFRESH_TS) = true) by (unfold REFRESH_TS; lia).
+  assert (E3 : (now + ACCESS_TS <? now) = false) by (unfold ACCESS_TS; lia).
+  assert (E4 : (now + REFRESH_TS <? now) = false) by (unfold REFRESH_TS; lia).
+  split; [|split].
+  - split.
+    + intros H. destruct k; try reflexivity; exfalso; apply H; apply access_wrong_key; rewrite issue_key; discriminate.
+    + intros ->. unfold verify_access, lib_accepts. cbn [issue t_key t_alg t_intact t_exp t_nbf_future t_iat_future t_cli t_sub is_hmac key_eqb lib_exp_ok claim_str claim_int negb andb].
+      rewrite E1, E3. cbn. discriminate.
+  - split.
+    + intros H. destruct k; try reflexivity; exfalso; apply H; apply refresh_wrong_key; rewrite issue_key; discriminate.
+    + intros ->. unfold verify_refresh, lib_accepts. cbn [issue t_key t_alg t_intact t_exp t_nbf_future t_iat_future t_cli t_sub t_typ is_hmac key_eqb lib_exp_ok claim_str claim_int negb andb].
+      rewrite E2, E4. cbn. discriminate.
+  - split.
+    + intros H. destruct k; try (exfalso; apply H; apply email_wrong_key; rewrite issue_key; discriminate).
+      split; [reflexivity|]. destruct (Z.eq_dec ctx vctx) as [e|n]; [exact e|]. exfalso. apply H.
+      apply (email_other_context now vctx _ ctx); [reflexivity|exact n].
+    + intros [-> ->]. unfold verify_email, lib_accepts. cbn [issue t_key t_alg t_intact t_exp t_nbf_future t_iat_future t_cli t_sub t_eml t_ctx is_hmac key_eqb lib_exp_ok claim_str claim_int negb andb].
+      rewrite E1, E3, Z.eqb_refl. cbn. discriminate.
+Qed.
+
 (* ------------------------------------------------------------------ non-vacuity *)
 Definition ex_access : token := mkTok HS256 KAccess true (CStr 3) (CNum 2000) (CStr 1) CAbsent CAbsent CAbsent false false.
 Definition ex_refresh : token := mkTok HS256 KRefresh true (CStr 3) (CNum (2000 + 518400)) (CStr 1) (CStr 1) CAbsent CAbsent false false.
@@ -215,3 +374,15 @@ Example ex_tokens :
   refresh 1000 (Some ex_access) (Some ex_refresh) 1 = Some 3 /\
   login_required 1000 (Some ex_refresh) = GUEST.
 Proof. vm_compute. repeat split; reflexivity. Qed.
+
+Example ex_cfg :
+  secrets_distinct cfg_default /\ ~ secrets_distinct cfg_shared /\
+  verify_access_c cfg_default 1000 true (Some ex_refresh) = VInvalid /\
+  verify_access_c cfg_shared 1000 true (Some ex_refresh) = VOk 3 (2000 + 518400) 1 0 /\
+  present_issued cfg_default 1000 KRefresh 3 1 0 0 1 0 = [0] /\ present_issued cfg_shared 1000 KRefresh 3 1 0 0 1 0 = [1; 3; 1; 0] /\
+  present_issued cfg_default 1000 KRefresh 3 1 0 0 51 0 = [1; 3].
+Proof.
+  split; [exact cfg_default_distinct|]. split.
+  - intros D. apply (D KRefresh KAccess); [discriminate|discriminate|reflexivity].
+  - vm_compute. repeat split; reflexivity.
+Qed.
